@@ -16,6 +16,8 @@ def run(rep, fb, tier):
 EXTRAS = [
     lambda rep, fb, tier: st.rule_family(rep, fb),
     lambda rep, fb, tier: st.rule_clone(rep, fb),
+    lambda rep, fb, tier: st.rule_orderdep(rep, fb),
+    lambda rep, fb, tier: __import__("vf.rules.canon", fromlist=["x"]).rule_canon(rep, fb),
     lambda rep, fb, tier: cs.rule_dispatch(rep, fb),
     lambda rep, fb, tier: origin.rule_origin(rep, fb),
     lambda rep, fb, tier: __import__("vf.rules.kernels", fromlist=["x"]).rule_kernel_siblings(rep, fb),
@@ -25,4 +27,9 @@ EXTRAS = [
     lambda rep, fb, tier: forward.rule_same_name(rep, fb),
     lambda rep, fb, tier: pyrules.rule_py_dispatch(rep),
     lambda rep, fb, tier: pyrules.rule_py_categories(rep),
+    lambda rep, fb, tier: __import__("vf.rules.methodrules", fromlist=["x"]).rule_index_content(rep, fb),
+    lambda rep, fb, tier: __import__("vf.rules.methodrules", fromlist=["x"]).rule_index_domain(rep, fb),
+    lambda rep, fb, tier: __import__("vf.rules.methodrules", fromlist=["x"]).rule_broadcast_validated(rep, fb),
+    lambda rep, fb, tier: __import__("vf.rules.methodrules", fromlist=["x"]).rule_option_shifts(rep, fb),
+    lambda rep, fb, tier: __import__("vf.rules.methodrules", fromlist=["x"]).rule_record_by_name(rep, fb),
 ]
